@@ -39,10 +39,10 @@ def gen_case(rng, tier, idx):
     dw = rng.choice([8, 16, 32, 64])
     gran = rng.choice([g for g in (8, 16, 32, 64) if g <= dw])
     gbits = (dw // gran).bit_length() - 1
-    aw = rng.choice([0, 1, 2, 3, 4, 5, 6, 8, 10, 12])
+    aw = rng.choice([0, 1, 2, 3, 4, 5, 6, 8, 10, 12, 16, 24, 30])
     feats = [f for f in ALL_FEATURES if rng.random() < 0.5]
     return {"aw": aw, "dw": dw, "gran": gran, "features": feats,
-            "al": rng.choice([0, 0, 0, 1, 2, 3]), "nsubs": rng.choice([0, 1, 2, 3, 4, 5]),
+            "al": rng.choice([0, 0, 0, 1, 2, 3]), "nsubs": rng.choice([0, 1, 2, 3, 4, 5, 8]),
             "cycles": 250 if tier == "quick" else 700}
 
 
